@@ -6,11 +6,25 @@ from typing import Callable, Dict, List, Optional, Tuple, Union
 
 import jax
 import jax.numpy as jnp
+import numpy as np
 import pandas as pd
 
 from jaxley.modules import Module
 from jaxley.utils.cell_utils import params_to_pstate
 from jaxley.utils.jax_utils import nested_checkpoint_scan
+
+
+def _within_type_edge_inds(module: Module, state_name: str, inds):
+    """Map global edge indices to indices into the per-type synaptic state arrays.
+
+    Synaptic states (and currents) are stored in one array per synapse type which only
+    holds the edges of that type. Recordings and clamps are registered with the global
+    edge index. For all other states the indices are returned unchanged."""
+    if len(module.edges) == 0 or state_name not in module._get_state_names()[1]:
+        return inds
+    within_type = module.edges.groupby("type").rank()["global_edge_index"]
+    within_type = (within_type.astype(int) - 1).to_numpy()
+    return within_type[np.asarray(inds)]
 
 
 def build_init_and_step_fn(
@@ -31,7 +45,10 @@ def build_init_and_step_fn(
             a single integration step, respectively.
     """
     # Initialize the external inputs and their indices.
-    external_inds = module.external_inds.copy()
+    external_inds = {
+        key: _within_type_edge_inds(module, key, inds)
+        for key, inds in module.external_inds.items()
+    }
 
     def init_fn(
         params: List[Dict[str, jnp.ndarray]],
@@ -229,11 +246,18 @@ def integrate(
 
     for key in externals.keys():
         externals[key] = externals[key].T  # Shape `(time, num_stimuli)`.
+        external_inds[key] = _within_type_edge_inds(module, key, external_inds[key])
 
     if module.recordings.empty:
         raise ValueError("No recordings are set. Please set them.")
     rec_inds = module.recordings.rec_index.to_numpy()
     rec_states = module.recordings.state.to_numpy()
+    rec_inds = np.asarray(
+        [
+            _within_type_edge_inds(module, state, ind)
+            for state, ind in zip(rec_states, rec_inds)
+        ]
+    ).astype(int)
 
     # Shorten or pad stimulus depending on `t_max`.
     if t_max is not None:
